@@ -116,6 +116,9 @@ fn mix(h: u64, v: u64) -> u64 {
 pub fn scenario(sh: &Arc<Shared>) {
     let mut rng = shuttle::rand::thread_rng();
     let ti = rng.gen_range(0..sh.targets.len());
+    // half of the executions use two different parser values (different grammars / parser types)
+    // alternately: state shared between parser types through a static would show here
+    let tj = if rng.gen_range(0..2) == 0 { rng.gen_range(0..sh.targets.len()) } else { ti };
     let nthreads = rng.gen_range(2..=4usize);
     let trace: Arc<Mutex<Vec<u8>>> = Arc::new(Mutex::new(Vec::new()));
     let mut handles = Vec::new();
@@ -123,10 +126,15 @@ pub fn scenario(sh: &Arc<Shared>) {
         let sh2 = sh.clone();
         let trace2 = trace.clone();
         let nparse = rng.gen_range(1..=4usize);
-        let picks: Vec<usize> = (0..nparse).map(|_| rng.gen_range(0..sh.targets[ti].cases.len())).collect();
+        let picks: Vec<(usize, usize)> = (0..nparse)
+            .map(|_| {
+                let which = if rng.gen_range(0..2) == 0 { ti } else { tj };
+                (which, rng.gen_range(0..sh.targets[which].cases.len()))
+            })
+            .collect();
         handles.push(shuttle::thread::spawn(move || {
-            let t = &sh2.targets[ti];
-            for ci in picks {
+            for (ti, ci) in picks {
+                let t = &sh2.targets[ti];
                 let c = &t.cases[ci];
                 let mut ctx = Ctx::new(Plan { reenter_at: c.reenter_at, ..Default::default() });
                 let tr = trace2.clone();
